@@ -99,7 +99,9 @@ pub fn proj_mask(m: &Mask, mode: &str, o: &J) -> J {
     };
     let insp = if m.insp && ok { o["insp"].clone() } else { J::Null };
     let leak = if m.leak && !panic { o["leaked"].clone() } else { J::Null };
-    json!({"ok": ok, "panic": panic, "out": out, "errs": errs, "obs": obs, "insp": insp, "leaked": leak})
+    // C13: the earlier parses of a history, each projected like a parse of its own
+    let past: Vec<J> = o["past"].as_array().map(|a| a.iter().map(|x| proj_mask(m, mode, x)).collect()).unwrap_or_default();
+    json!({"ok": ok, "panic": panic, "out": out, "errs": errs, "obs": obs, "insp": insp, "leaked": leak, "past": past})
 }
 
 pub fn proj(prop: &str, mode: &str, o: &J) -> J {
@@ -367,6 +369,37 @@ pub fn real_asserts(prop: &str, case: &Case, real: &Obs, all: &dyn Fn(&str, &str
             }
             None
         }
+        "C13" => {
+            if case.more.is_empty() {
+                return None;
+            }
+            let key = |o: &Obs| (o.ok, o.out.clone(), o.errs.clone(), o.panic.is_some());
+            // the same history with the handles (clone, &, Box, Rc, Arc, boxed(), Either) assigned differently
+            for sched in [2usize, 4, 7] {
+                if let Ok(o) = crate::run::run_hist_as(case, &case.kind, &case.ety, &case.mode, sched) {
+                    let a: Vec<_> = o.past.iter().chain(std::iter::once(&o)).map(key).collect();
+                    let b: Vec<_> = real.past.iter().chain(std::iter::once(real)).map(key).collect();
+                    if a != b {
+                        return Some(format!("results depend on the handle the parser is used through (schedule {sched}): {:?} vs {:?}", a, b));
+                    }
+                }
+            }
+            // every parse of the history against a fresh parser on that input alone
+            let mut inputs = vec![case.inp.clone()];
+            inputs.extend(case.more.iter().cloned());
+            let obs: Vec<&Obs> = real.past.iter().chain(std::iter::once(real)).collect();
+            for (i, inp) in inputs.iter().enumerate() {
+                let mut single = case.clone();
+                single.inp = inp.clone();
+                single.more = vec![];
+                if let Ok(f) = run_case_as(&single, &case.kind, &case.ety, &case.mode) {
+                    if i < obs.len() && key(&f) != key(obs[i]) {
+                        return Some(format!("parse #{i} of the history differs from a fresh parser on the same input: {:?} vs {:?}", key(obs[i]), key(&f)));
+                    }
+                }
+            }
+            None
+        }
         "C18" => {
             if !real.hash_ok {
                 return Some("inspector state differs from the state obtained by feeding the tokens before the cursor".into());
@@ -458,6 +491,7 @@ pub fn replay_file(path: &str, prop: &str, max_report: usize) -> Result<ReplaySt
         for b in behs {
             let mut m = b["res"].clone();
             m["obs"] = b["obs"].clone();
+            m["past"] = b["past"].clone();
             let mp = proj(prop, &case.mode, &m);
             if mp == rp {
                 let mut kf: Vec<String> = b["kf"].as_array().map(|a| a.iter().map(|x| x.as_str().unwrap_or("").to_string()).collect()).unwrap_or_default();
@@ -491,6 +525,7 @@ pub fn replay_file(path: &str, prop: &str, max_report: usize) -> Result<ReplaySt
                     for b in behs {
                         let mut m = b["res"].clone();
                         m["obs"] = b["obs"].clone();
+                        m["past"] = b["past"].clone();
                         let kf: Vec<String> = b["kf"].as_array().map(|a| a.iter().map(|x| x.as_str().unwrap_or("").to_string()).collect()).unwrap_or_default();
                         if !kf.is_empty() && proj("ALL", &case.mode, &m) == rfull && expl.as_ref().map_or(true, |x| kf.len() < x.len()) {
                             expl = Some(kf);
@@ -511,6 +546,7 @@ pub fn replay_file(path: &str, prop: &str, max_report: usize) -> Result<ReplaySt
                         .map(|b| {
                             let mut m = b["res"].clone();
                             m["obs"] = b["obs"].clone();
+                            m["past"] = b["past"].clone();
                             json!({"kf": b["kf"], "expected": proj(prop, &case.mode, &m)})
                         })
                         .collect();
